@@ -3,7 +3,7 @@
     c15nm     : (text class trunc_class)                  ->  needs_more
     c15lru    : cap key*                                  ->  per call h|m, then "|", then the key order *)
 From Coq Require Import String.
-From BV Require Import Base.Prelude Base.Codec Cache.Lru Modes.Classes Modes.Complete gen.IncompleteTables.
+From BV Require Import Base.Prelude Base.Codec Cache.Lru Modes.Classes Modes.Complete gen.C15Incomplete.
 
 Fixpoint take_n {A} (n : nat) (l : list A) : list A * list A :=
   match n, l with
